@@ -77,6 +77,18 @@ CHECKS = {
         "depth <= 3 with mutated matching documents beyond; integers are single digits, strings from a small alphabet (scalar "
         "interpretation itself is C06); tagged enum notation not yet in the model; " + TRUST,
    technique="TLA+ reference interpreter (TypedCursor.tla) + TLC laws/enumeration + TLC trace validation of recorded typed calls"),
+ "C06": dict(
+   category="model_checking",
+   text="Scalars.tla transcribes the scalar tables as pure operators over strings (integer notation with exact width checks "
+        "done on normalised digit strings against boundary tables, YAML 1.1 / strict booleans, null-likes, string acceptance "
+        "incl. no_schema, the untyped inference order) and Base64.tla the strict canonical decoder; TLC self-checks the digit "
+        "arithmetic against real arithmetic for 8/16 bit, checks width laws over the corpus and enumerates the finite products; "
+        "every cell is executed against the real crate for all integer widths, bool, String, f64 and the untyped target and decided "
+        "by the TLA+ trace validator; exhaustive over the stated finite domain.",
+   design_ref="DESIGN.md section 4 C06",
+   note="quick: all tokens x 3 styles at default options + reduced tag/option combinations; thorough: full product; char, Option and "
+        "!!binary-into-String targets and literal/folded styles are not yet in the table; finite float values delegated to Rust; " + TRUST,
+   technique="TLA+ table transcription (Scalars.tla, Base64.tla) evaluated by TLC + TLC trace validation of every executed cell"),
 }
 
 NOT_YET = "check not built yet (work in progress); it will be claimed once its TLA+ model and conformance harness are registered"
